@@ -1,4 +1,95 @@
-(** C04 -- placeholder while the pipeline is being built; replaced by the property theorems. *)
-From TLV Require Import Tl2.Tl2Model.
-Example C04_placeholder : wf2 [] (mkX (fun _ => false) (fun _ _ => false) (fun _ => 0%N)) = true.
-Proof. reflexivity. Qed.
+(** C04 -- TL1-to-TL2 conversion preserves values.  Property theorems only.
+    Models: Tl1/Tl1Model.v ([enc1]/[dec1] = generated WriteTL1/ReadTL1) and Tl2/Tl2Model.v
+    ([enc2]/[dec2] = generated WriteTL2/ReadTL2) over the same schema IR and the same values
+    (after ReadTL1 the tl2mask presence bits mirror the TL1 masks and absent fields are reset, so
+    the TL1 wire value IS the Go object state the TL2 writer sees). *)
+From TLV Require Import Prim.PrimModel Tl1.Tl1Model Tl1.Tl1Proofs Tl2.Tl2Model Tl2.Tl2Blocks Tl2.Tl2Proofs.
+Open Scope N_scope.
+
+(** For every well-formed schema, type, nat-parameter environment and TL1 bytes [b1] of a value [v]
+    (exactly the inputs ReadTL1 decodes to [v], by C01): if [v] is its own TL2 normal form (no
+    non-optional float/double field holds -0.0, see C04_refuted_negative_zero), then writing it in
+    TL2, reading that back and writing TL1 again yields [b1]. *)
+Theorem C04_conversion : forall san s x, wf2 s x = true ->
+  forall v t bare ps b1 b2 fuel,
+    enc1 san s t bare ps v = Some b1 -> (vdepth v <= fuel)%nat ->
+    dec1 fuel san s t bare ps b1 = Some (Ok (v, [])) /\
+    (enc2 s x t false v = Some b2 -> norm2 s x t false v = v ->
+     exists v2, dec2 fuel s x t b2 = Some (Ok (v2, [])) /\ enc1 san s t bare ps v2 = Some b1).
+Proof.
+  intros san s x Hwf v t bare ps b1 b2 fuel H1 Hd.
+  destruct (tl1_tl2_tl1 san s x Hwf v t bare ps b1 fuel H1 Hd) as [R1 R2].
+  split; [exact R1|]. intros H2 Hn. exists v. split; [exact (R2 b2 H2 Hn)|exact H1].
+Qed.
+Print Assumptions C04_conversion.
+
+(** the side condition holds for every value of a schema without float/double *)
+Theorem C04_conversion_without_floats : forall san s x, wf2 s x = true -> no_float s = true ->
+  forall v t bare ps b1 b2 fuel,
+    enc1 san s t bare ps v = Some b1 -> (vdepth v <= fuel)%nat -> enc2 s x t false v = Some b2 ->
+    exists v2, dec2 fuel s x t b2 = Some (Ok (v2, [])) /\ enc1 san s t bare ps v2 = Some b1.
+Proof.
+  intros san s x Hwf Hnf v t bare ps b1 b2 fuel H1 Hd H2.
+  destruct (C04_conversion san s x Hwf v t bare ps b1 b2 fuel H1 Hd) as [_ R].
+  exact (R H2 (norm2_no_float s x Hnf v t false)).
+Qed.
+Print Assumptions C04_conversion_without_floats.
+
+(** in general the TL2 detour yields the TL1 bytes of the normal form *)
+Theorem C04_conversion_normal_form : forall s x, wf2 s x = true ->
+  forall v t b2 fuel, enc2 s x t false v = Some b2 -> (vdepth v <= fuel)%nat ->
+    dec2 fuel s x t b2 = Some (Ok (norm2 s x t false v, [])).
+Proof.
+  intros s x Hwf v t b2 fuel H2 Hd. pose proof (enc2_dec2 s x Hwf v t b2 fuel [] H2 Hd) as R.
+  now rewrite app_nil_r in R.
+Qed.
+Print Assumptions C04_conversion_normal_form.
+
+(** The full statement (without the side condition) is FALSE of the faithful model and of the
+    code: [f.fl a:float = f.Fl] with a = -0.0 (TL1 bytes 00 00 00 80): the generated TL2 writer
+    tests [item.A != 0], which is false for -0.0, omits the field (TL2 bytes 00), the reader
+    resets it, and TL1 written from that object is 00 00 00 00. *)
+Definition negzero_schema : schema := [ TPrim PFloat; TStruct 1234 [mkField 0 true None []] ].
+Definition negzero_x : tl2x := mkX (fun _ => false) (fun _ _ => false) (fun _ => 0).
+Definition negzero_value : value := VStruct [Some (VNum 2147483648)].
+
+Theorem C04_refuted_negative_zero :
+  wf2 negzero_schema negzero_x = true /\
+  enc1 true negzero_schema 1 true [] negzero_value = Some [0; 0; 0; 128] /\
+  dec1 5 true negzero_schema 1 true [] [0; 0; 0; 128] = Some (Ok (negzero_value, [])) /\
+  enc2 negzero_schema negzero_x 1 false negzero_value = Some [0] /\
+  dec2 5 negzero_schema negzero_x 1 [0] = Some (Ok (VStruct [Some (VNum 0)], [])) /\
+  enc1 true negzero_schema 1 true [] (VStruct [Some (VNum 0)]) = Some [0; 0; 0; 0].
+Proof. vm_compute. repeat split; reflexivity. Qed.
+Print Assumptions C04_refuted_negative_zero.
+
+(** Non-vacuity: a struct with a local field mask (bit field + masked int), a union and a
+    dynamic tuple sized by a field: TL1 -> TL2 -> TL1 computes to the original bytes. *)
+Definition ex_schema : schema :=
+  [ TPrim PNat;                                                        (* 0 *)
+    TPrim PString;                                                     (* 1 *)
+    TStruct 100 [];                                                    (* 2: true *)
+    TArray ATupleDyn (mkField 0 true None []);                         (* 3: n*[#] *)
+    TStruct 21 []; TStruct 22 [mkField 1 true None []];                (* 4, 5: variants *)
+    TUnion [4%nat; 5%nat];                                             (* 6 *)
+    TStruct 41 [mkField 0 true None []; mkField 2 true (Some (NField 0, 0)) []; mkField 0 true (Some (NField 0, 1)) [];
+                mkField 6 false None []; mkField 3 true None [NField 0]] ].   (* 7 *)
+Definition ex_x : tl2x :=
+  mkX (fun _ => false) (fun t i => Nat.eqb t 7 && Nat.eqb i 1) (fun t => if Nat.eqb t 5 then 1 else 0).
+Definition ex_value : value :=
+  VStruct [Some (VNum 3); Some (VStruct []); Some (VNum 0); Some (VUnion 1 [Some (VStr [104; 105])]);
+           Some (VArr [VNum 1; VNum 0; VNum 5])].
+
+Example C04_ex_wf : wf2 ex_schema ex_x = true /\ no_float ex_schema = true.
+Proof. vm_compute. split; reflexivity. Qed.
+Example C04_ex_conversion :
+  match enc1 true ex_schema 7 false [] ex_value, enc2 ex_schema ex_x 7 false ex_value with
+  | Some b1, Some b2 =>
+      dec1 9 true ex_schema 7 false [] b1 = Some (Ok (ex_value, [])) /\
+      match dec2 9 ex_schema ex_x 7 b2 with
+      | Some (Ok (v2, [])) => enc1 true ex_schema 7 false [] v2 = Some b1 /\ lenN b1 = 32 /\ lenN b2 = 30
+      | _ => False
+      end
+  | _, _ => False
+  end.
+Proof. vm_compute. repeat split; reflexivity. Qed.
